@@ -312,7 +312,11 @@ fn send_job(w: &mut Worker, line: &str) -> Reply {
             Ok(_) => {}
         }
         let l = l.trim();
-        if let Some(i) = l.strip_prefix("I ") {
+        if let Some(i) = l.strip_prefix("H ") {
+            let k: Option<u64> = i.parse().ok();
+            let _ = w.child.wait();
+            return Reply::Died(k, "hang: no progress for 25 s of wall-clock time".to_string());
+        } else if let Some(i) = l.strip_prefix("I ") {
             last_i = i.parse().ok();
         } else if let Some(x) = l.strip_prefix("X ") {
             extra.push(x.to_string());
@@ -392,7 +396,7 @@ fn run_job(bin: &str, w: &mut Option<Worker>, job: &Job, alpha_len: usize) -> Jo
             }
             Reply::Died(idx, status) => {
                 *w = None;
-                if !careful {
+                if !careful && !(status.starts_with("hang") && idx.is_some()) {
                     // find the culprit: same range again, one acknowledged input at a time
                     careful = true;
                     continue;
@@ -646,6 +650,10 @@ pub fn decoder_sweep(tier: Tier, rep: &mut Report) {
             }
         }
     }
+    // malformed-but-well-framed messages: every node-list length residue, wrong id lengths, missing arguments
+    for (_, bytes) in super::c13::rejections() {
+        inputs.push(bytes);
+    }
     let nest = nesting_inputs(tier.pick(7, 1));
     let nest_n = nest.len();
     inputs.extend(nest);
@@ -723,6 +731,10 @@ pub fn node_inputs() -> Vec<(String, Vec<u8>)> {
     v.push(("query twice in one datagram".into(), [q.clone(), q.clone()].concat()));
     v.push(("nodes of odd length".into(), b"d1:rd2:id20:nnnnnnnnnnnnnnnnnnnn5:nodes27:aaaaaaaaaaaaaaaaaaaaaaaaaaae1:t8:123456781:y1:re".to_vec()));
     v.push(("tid of 1400 bytes".into(), krpc::ping(&vec![b'T'; 1400], &id)));
+    v.push(("get_peers with a tid of 1395 bytes".into(), krpc::get_peers(&vec![b'U'; 1395], &id, &[b'h'; 20], None)));
+    v.push(("find_node with a tid of 1380 bytes".into(), krpc::find_node(&vec![b'V'; 1380], &id, &[b't'; 20], None)));
+    v.push(("nodes of 30 bytes (entry cut short)".into(), b"d1:rd2:id20:nnnnnnnnnnnnnnnnnnnn5:nodes30:aaaaaaaaaaaaaaaaaaaaaaaaaaaaaae1:t8:123456781:y1:re".to_vec()));
+    v.push(("nodes6 of 45 bytes".into(), b"d1:rd2:id20:nnnnnnnnnnnnnnnnnnnn6:nodes645:aaaaaaaaaaaaaaaaaaaaaaaaaaaaaaaaaaaaaaaaaaaaae1:t8:123456781:y1:re".to_vec()));
     v
 }
 
@@ -806,6 +818,9 @@ fn run_node_record(seq: &[(u8, usize)], inputs: &[(String, Vec<u8>)]) -> Option<
     None
 }
 
+pub static NODE_PROGRESS: std::sync::atomic::AtomicU64 = std::sync::atomic::AtomicU64::new(0);
+pub static NODE_CURRENT: std::sync::atomic::AtomicU64 = std::sync::atomic::AtomicU64::new(0);
+
 /// Worker side of the node sweep: records [from, to) of `node_records(maxlen)` where the path field carries maxlen.
 pub fn node_job(maxlen: &str, from: u64, to: u64, careful: bool) -> String {
     let maxlen: usize = maxlen.parse().unwrap_or(1);
@@ -822,6 +837,8 @@ pub fn node_job(maxlen: &str, from: u64, to: u64, careful: bool) -> String {
             let _ = o.flush();
         }
         count += 1;
+        NODE_CURRENT.store(k, Ordering::Relaxed);
+        NODE_PROGRESS.fetch_add(1, Ordering::Relaxed);
         match run_node_record(&recs[k as usize], &inputs) {
             None => ok += 1,
             Some((sig, what)) => {
